@@ -170,8 +170,8 @@ PROPS['C10'] = dict(level='model_checking',
             [SEQ('task_stop_o%d_p%d' % (o, p), 'C10_task.cpp', 'h_task_stop', std='c++20', exc=True, extra=['$REPO/source/async_stack.cpp'], opts=dict(params=[o, p], max_rec=8, max_visits=200), desc='stop %s on the awaiting receiver is visible to the awaited leaf; leaf outcome %d' % ('requested' if p else 'not requested', o)) for o in (0, 2) for p in (0, 1)])
 
 PROPS['C14'] = dict(level='model_checking',
-  bounds='safe_file_descriptor (all 8^4 operation sequences: first enumerated, three symbolic) and mmap_region (all 4^3 sequences) with counting ::close/::munmap stubs; io_epoll_context over the stated kernel model (epoll table, eventfd counter, timerfd): two schedule() operations from other threads injected at system calls k1,k2 in 0..6 of the I/O thread, run(stop_token) until stop',
-  outside='async read/write senders, io_uring_context (rings shared with the kernel: no model), short/failed system calls, descriptor reuse after a cancelled operation, interleavings inside one remote action (see DESIGN 7.6)',
+  bounds='safe_file_descriptor (all 8^4 operation sequences: first enumerated, three symbolic) and mmap_region (all 4^3 sequences) with counting ::close/::munmap stubs; io_epoll_context over the stated kernel model (epoll table, eventfd counter, timerfd): two schedule() operations from other threads injected at system calls k1,k2 in 0..6 of the I/O thread, run(stop_token) until stop; async_read_some/async_write_some on one pipe of capacity 4 with 2-byte buffers and symbolic data: read before write, partial transfers (0-3 bytes present), remote stop request at system call 1..5 (including before the operation is started on the I/O thread), later activity on the descriptor, a second read after a cancelled/completed one',
+  outside='io_uring_context (rings shared with the kernel: no model), short/failed system calls other than EAGAIN, hang-up/EOF, more than one pipe, interleavings inside one remote action (see DESIGN 7.6)',
   harnesses=[SEQ('fd_first_%d' % c, 'C14_fd.cpp', 'h_fd', opts=dict(params=[c], max_visits=100), desc='safe_file_descriptor: first operation %d, then three symbolic operations out of 8' % c) for c in range(8)] +
             [SEQ('mmap_seq', 'C14_fd.cpp', 'h_mmap', opts=dict(params=[0], max_visits=100), desc='mmap_region: three symbolic operations out of 4')])
 PROPS['C11']['harnesses'] += [SEQ('via_throw_k%d' % k, 'C11_viathrow.cpp', 'h_via_throw', exc=True, opts=dict(params=[k]), desc='via over a source completing on a foreign context with a value whose copy #%d throws' % k) for k in (0, 1, 2, 99)]
